@@ -306,6 +306,94 @@ pub fn replay_program<F: Family>(idx: usize, prog: &Program<F>, mode: &Mode) -> 
             break;
         }
     }
+    // "under any scheduler": every execution of a short run under each BUILT-IN scheduler must be
+    // reproducible from the schedule the runtime prints for it = the data seed its `new_execution`
+    // announced + the calls it answered (seed C01-round-robin-data-source-not-reseeded was invisible
+    // while only the explorer's executions were replayed)
+    if rep.machinery_error.is_none() {
+        use crate::wrappers::DynSched;
+        use shuttle_engine::scheduler::Schedule;
+        let iters = 3usize;
+        let builtins: Vec<(&str, DynSched)> = vec![
+            ("round-robin", DynSched(Box::new(shuttle_schedulers::RoundRobinScheduler::new(iters)))),
+            ("random", DynSched(Box::new(shuttle_schedulers::RandomScheduler::new_from_seed(mode.seed ^ 0x5eed, iters)))),
+            ("pct", DynSched(Box::new(shuttle_schedulers::PctScheduler::new_from_seed(mode.seed ^ 0x5eed, 2, iters)))),
+            ("urw", DynSched(Box::new(shuttle_schedulers::UrwRandomScheduler::new_from_seed(mode.seed ^ 0x5eed, iters)))),
+            ("dfs", DynSched(Box::new(shuttle_schedulers::DfsScheduler::new(Some(iters), true)))),
+        ];
+        for (sname, sched) in builtins {
+            let (rs, rec) = RecSched::new(sched);
+            let logs: Logs<F::Res> = std::rc::Rc::new(std::cell::RefCell::new(Vec::new()));
+            let auxs: AuxLogs = std::rc::Rc::new(std::cell::RefCell::new(Vec::new()));
+            AUX.with(|a| a.borrow_mut().clear());
+            let body = make_body::<F>(&arc, &logs, &auxs);
+            let run = std::panic::catch_unwind(std::panic::AssertUnwindSafe(|| {
+                shuttle_engine::Runner::new(rs, config.clone()).run(body);
+            }));
+            // split the recorded calls per execution
+            let mut execs: Vec<(u64, Vec<RecEvent>)> = Vec::new();
+            for e in rec.borrow().iter() {
+                match e {
+                    RecEvent::NewExecution(Some(seed)) => execs.push((*seed, Vec::new())),
+                    RecEvent::NewExecution(None) => {}
+                    other => {
+                        if let Some(last) = execs.last_mut() {
+                            last.1.push(other.clone());
+                        }
+                    }
+                }
+            }
+            let ls = logs.borrow();
+            for (i, (seed, evs)) in execs.iter().enumerate() {
+                // an execution that produced no body log (none here) or the failing last one is still replayed
+                let Some(log1) = ls.get(i) else { continue };
+                // (PCT refuses, between iterations, bodies without any multi-choice step: that panic is
+                // the scheduler's own and not a failure of the execution before it)
+                let pct_refusal = matches!(&run, Err(p) if payload_to_string(p).contains("did not exercise any concurrency"));
+                let last_failed = run.is_err() && !pct_refusal && i + 1 == execs.len();
+                let mut sch = Schedule::new(*seed);
+                for e in evs {
+                    match e {
+                        RecEvent::Task { chosen: Some(t), .. } => sch.push_task(shuttle_engine::scheduler::TaskId::from(*t)),
+                        RecEvent::Rand(_) => sch.push_random(),
+                        _ => {}
+                    }
+                }
+                let text = serialize_schedule(&sch);
+                let (rs2, rec2) = RecSched::new(shuttle_schedulers::ReplayScheduler::new_from_encoded(&text));
+                let (log2, ending2) = run_once::<F, _>(&arc, rs2, &config);
+                let ev2: Vec<RecEvent> = rec2.borrow().iter().filter(|e| !matches!(e, RecEvent::NewExecution(_))).cloned().collect();
+                rep.executions += 1;
+                let what = if *evs != ev2 {
+                    let at = evs.iter().zip(ev2.iter()).position(|(a, b)| a != b).unwrap_or(evs.len().min(ev2.len()));
+                    Some(format!("scheduler call {} differs: original {:?}, replay {:?}", at, evs.get(at), ev2.get(at)))
+                } else if *log1 != log2 {
+                    let at = log1.iter().zip(log2.iter()).position(|(a, b)| a != b).unwrap_or(log1.len().min(log2.len()));
+                    Some(format!("observation log differs at entry {}: original {:?}, replay {:?}", at, log1.get(at), log2.get(at)))
+                } else if last_failed != (ending2 != RawEnding::Ok) {
+                    Some(format!(
+                        "original execution {} but the replay ended {:?}",
+                        match &run {
+                            Err(p) => format!("failed ({})", payload_to_string(p).chars().take(160).collect::<String>()),
+                            Ok(_) => "passed".into(),
+                        },
+                        ending2
+                    ))
+                } else {
+                    None
+                };
+                match what {
+                    Some(w) => push(
+                        format!("execution {} of a {}-iteration run under the built-in {} scheduler is not reproduced by its schedule {:?} (seed {}): {}", i, iters, sname, text, seed, w),
+                        &format!("builtin-{}", sname),
+                        &[],
+                        &mut viols,
+                    ),
+                    None => rep.traces_validated += 1,
+                }
+            }
+        }
+    }
     // the uncontrolled-nondeterminism checker wrapped around the same exploration must stay silent
     if rep.machinery_error.is_none() {
         let ex2 = Explorer::new(Options {
